@@ -30,7 +30,7 @@ PROPS = {
     "C13": [(chan.C13, ["C13_"]), (transport, ["C13_Transport"]), (clientlife, ["C13_Client"])],
     "C12": [(tcp_stream.C12, ["C12_"])],
     "C17": [(chan.C17, ["C17_", "C13_NoCrash"]), (clientlife, ["C17_SrvPingIsolated"])],
-    "C18": [(srvlife, ["C18_"]), (listener, ["C18_ListenerStops"])],
+    "C18": [(srvlife, ["C18_"]), (listener, ["C18_Listener"])],
     "C19": [(clientlife, ["C19_"])],
     "C20": [(mux, ["C20_"])],
     "C16": [(tcp_stream.C16, ["C16_"])],
